@@ -171,9 +171,8 @@ def count_form(ctx: Ctx, fn):
     for r in reqs:
         if norm(r.args[0]) != "%s.offset" % param:
             return False, "request address is %s, not %s.offset" % (norm(r.args[0]), param)
-        cnt = r.args[1]
-        if isinstance(cnt, ast.Name) and cnt.id in assigns:
-            cnt = assigns[cnt.id]
+        from ..astutil import expand_locals
+        cnt = expand_locals(r.args[1], fn.node)
         # evaluate the count expression for sizes 0..16 with the constant evaluator
         for size in range(0, 17):
             class _S:   # attribute bag
